@@ -259,7 +259,8 @@ def load_csv_dataset_from_remote(remote: RemoteFileMetadata, dataset_filename, d
             else:
                 dataset = np.loadtxt(archive_path, delimiter=',', dtype=np.float64)
             dataset_tmp_file_path = path.join(tmp_dir, dataset_filename)
-            pickle.dump(dataset, open(dataset_tmp_file_path, "wb"))
+            with open(dataset_tmp_file_path, "wb") as dataset_tmp_file:
+                pickle.dump(dataset, dataset_tmp_file)
             os.rename(dataset_tmp_file_path, dataset_file_path)
     elif not available and not download_if_missing:
         raise OSError("Data not found and `download_if_missing` is False")
